@@ -70,10 +70,10 @@ Theorem C02_Pspec_nonneg : forall n W i j,
 Proof. exact Pspec_nonneg. Qed.
 Print Assumptions C02_Pspec_nonneg.
 
-(* the hypotheses are satisfiable: a weighted staircase with perm = 409 *)
+(* the hypotheses are satisfiable: a weighted staircase with perm = 61 *)
 Example C02_spec_example :
   let W := of_lists [[3; 2; 0]; [5; 4; 1]; [4; 3; 2]] in
-  ~ perm 3 W == 0 /\ Pspec 3 W 0 0 == 33 # 71 /\ Pspec 3 W 0 2 == 0.
+  ~ perm 3 W == 0 /\ Pspec 3 W 0 0 == 33 # 61 /\ Pspec 3 W 0 2 == 0.
 Proof. cbv zeta. repeat split; vm_compute; discriminate || reflexivity. Qed.
 
 (* ================================================================== *)
@@ -244,5 +244,5 @@ Proof. exact glynn_plain_eq_perm_le4. Qed.
 Print Assumptions C02_glynn_plain_eq_perm_le4_bounded.
 
 Example C02_glynn_example :
-  square 3 [[3; 2; 1]; [5; 4; 1]; [4; 3; 2]] /\ fast_glynn_perm [[3; 2; 1]; [5; 4; 1]; [4; 3; 2]] = Some 80.
+  square 3 [[3; 2; 1]; [5; 4; 1]; [4; 3; 2]] /\ fast_glynn_perm [[3; 2; 1]; [5; 4; 1]; [4; 3; 2]] = Some 92.
 Proof. split; [split; [reflexivity | repeat constructor] | vm_compute; reflexivity]. Qed.
